@@ -320,6 +320,7 @@ func (fr *frame) obligeClause(st *State, kind string, cond *Term, cl *Clause, te
 	c.oblige(st, kind, cond, cl.Pos, text+": "+cl.Text)
 	if len(c.obls) > n {
 		c.obls[len(c.obls)-1].Props = cl.Props
+		c.obls[len(c.obls)-1].Clause = cl
 	}
 }
 
